@@ -85,6 +85,51 @@ theorem partial_cmp_deviates :
   obtain ⟨h1, h2, h3, _⟩ := le_deviates
   exact ⟨h1, h2, h3⟩
 
+/-! ### `<=` as the runtime computes it is a partial order; a tick is strict -/
+
+/-- `c <= c` for every clock (`partial_cmp` returns `Some(Equal)`). -/
+theorem le_refl (a : Clock) : Clock.le a a = true :=
+  (le_iff_of_length_le a a (Nat.le_refl _)).mpr (ple_refl a)
+
+/-- a `<=` never goes from a longer clock to a shorter one -/
+theorem length_le_of_le (a b : Clock) (h : Clock.le a b = true) : List.length a ≤ List.length b := by
+  rcases Nat.lt_or_ge (List.length b) (List.length a) with hl | hl
+  · rw [le_false_of_length_gt a b hl] at h; cases h
+  · exact hl
+
+/-- **antisymmetry, as equality of representations**: mutual `<=` forces the very same `time` vector
+(same length, same components), not just the same clock up to trailing zeros. -/
+theorem le_antisymm (a b : Clock) (h1 : Clock.le a b = true) (h2 : Clock.le b a = true) : a = b :=
+  ext_of_length_eq a b (Nat.le_antisymm (length_le_of_le a b h1) (length_le_of_le b a h2))
+    (ple_antisymm (ple_of_le a b h1) (ple_of_le b a h2))
+
+/-- **transitivity** of the runtime's `<=` (the length side-condition composes). -/
+theorem le_trans (a b c : Clock) (h1 : Clock.le a b = true) (h2 : Clock.le b c = true) : Clock.le a c = true :=
+  (le_iff_of_length_le a c (Nat.le_trans (length_le_of_le a b h1) (length_le_of_le b c h2))).mpr
+    (ple_trans (ple_of_le a b h1) (ple_of_le b c h2))
+
+/-- **a tick is strict**: after `increment` of an existing component the new clock is not dominated by
+the old one — so two successive clock-advancing operations of one task are ordered one way only, and
+no other task's older knowledge of this task (`≤` the old clock) can dominate the new clock. -/
+theorem increment_strict (c : Clock) (t : Nat) (h : t < List.length c) :
+    ple c (Clock.increment c t) ∧ ¬ ple (Clock.increment c t) c ∧ Clock.le (Clock.increment c t) c = false := by
+  have hn : ¬ ple (Clock.increment c t) c := fun hh => by
+    have := hh t
+    rw [get_increment_self c t h] at this
+    omega
+  refine ⟨ple_increment c t, hn, ?_⟩
+  cases hle : Clock.le (Clock.increment c t) c with
+  | false => rfl
+  | true => exact absurd (ple_of_le _ _ hle) hn
+
+/-- what a task that only knew the old clock holds can never dominate the ticked clock -/
+theorem stale_knowledge_not_ordered (c o : Clock) (t : Nat) (h : t < List.length c) (ho : ple o c) :
+    ¬ ple (Clock.increment c t) o := fun hh =>
+  (increment_strict c t h).2.1 (ple_trans hh ho)
+
+example : Clock.le (Clock.ofList [1, 2]) (Clock.ofList [1, 2, 0]) = true ∧
+    Clock.le (Clock.increment (Clock.ofList [1, 2]) 1) (Clock.ofList [1, 2]) = false := by decide
+
 /-! ### each task's own clock only grows -/
 
 /-- **`own_clock_monotone`**, one task segment: any program over the kernel API, any fuel, any ending. -/
